@@ -83,6 +83,12 @@ CHECKS.update({
    text="The two lookup structures and the pending set are recomputed from the entries after every operation and compared slot by slot (every id slot, every (path,id) slot, no empty bucket, pending == change flag with an id, nothing forgotten). Sequences deliberately reuse ids and path slots and include splits and merges.",
    note="Trusted: the integrity predicate (transcribed from the statement). Operation preconditions mirror the code's own asserts and call sites. KF-16 (unbounded recursion) and KF-35 (abandoned entry stays pending) are fenced off and replayed."),
 })
+CHECKS.update({
+ "C12": dict(engine="E-engine-harness", category="exploration", design_ref="2/C12",
+   technique="property-based testing with objects outside the roots (prefix siblings, account-root files, boundary-crossing moves, declining translate): snapshot invariant over everything outside the roots around every engine step, call-log invariant on the resolved target path of every engine mutation, reference tree for the inside",
+   text="Users create and move objects across the root boundary; after every single engine step everything outside both roots must be byte-identical and every engine-issued mutation must address (as resolved before the call) a path inside the root; the inside must equal the expected tree with move-out as deletion and move-in as creation; declined paths must stay exactly as each side's users left them.",
+   note=E_NOTE + " KF-23 (upload onto a moved-out file) and KF-36 (children of a moved-in folder) are open findings, fenced off and replayed."),
+})
 NOT_YET = {}
 
 def main():
